@@ -252,14 +252,17 @@ def p3(prog, ctx):
                 return src(ds[0].value)
         return src(a) if a is not None else ""
     lin = [c for c in walk_no_nested(d) if isinstance(c, ast.Call) and src(c.func) == "linear_output_file.write" and "%.2f" in _arg_text(c)]
-    mat = [n for n in walk_no_nested(d) if isinstance(n, ast.ListComp) and "group_numeric_ids" in src(n)]
-    if len(lin) != 1 or len(mat) != 1:
-        raise AnalysisError("dump_grouped: linear/matrix writers not found")
     from ..engine.dataflow import single_def_env
     denv = single_def_env(d)
-    mat_text = src(symexec.subst(mat[0], denv))
-    if not re.search(r"self\.ordered_groups\[\w+\]", _arg_text(lin[0])) or "self.feature_counter[feature_id]" not in mat_text:
-        ctx.fail("P3", lin[0], d._qualname, src(lin[0]), "linear rendering does not name groups through ordered_groups[numeric id]")
+    # matrix: some <counter>.get(self.group_numeric_ids[<name>]) whose counter is this feature's cell table
+    gets = [c for c in walk_no_nested(d) if isinstance(c, ast.Call) and isinstance(c.func, ast.Attribute) and c.func.attr == "get"
+            and c.args and re.match(r"^self\.group_numeric_ids\[\w+\]$", src(c.args[0]))]
+    if len(lin) != 1 or not gets:
+        raise AnalysisError("dump_grouped: linear/matrix writers not found")
+    recv = src(symexec.subst(gets[0].func.value, denv))
+    if not re.search(r"self\.ordered_groups\[\w+\]", _arg_text(lin[0])) or recv != "self.feature_counter[feature_id]":
+        ctx.fail("P3", lin[0], d._qualname, src(lin[0]), "linear rendering does not name groups through ordered_groups[numeric id], or the matrix "
+                 "cells are not read from this feature's table through group_numeric_ids[name] (receiver %s)" % recv)
     else:
         ctx.ok("P3", "%s:%d" % (LRC, lin[0].lineno), "linear: ordered_groups[numeric id]; matrix: counter.get(group_numeric_ids[name]) over the same table")
 
@@ -284,12 +287,18 @@ def p4(prog, ctx):
                         continue
                     if isinstance(sub, (ast.If, ast.For, ast.Pass)):
                         continue
-                    if isinstance(sub, ast.Assign) and all(isinstance(t, ast.Name) for t in sub.targets):
-                        names = {t.id for t in sub.targets}
-                        outside = [x for x in walk_no_nested(f) if isinstance(x, ast.Name) and x.id in names
-                                   and isinstance(x.ctx, ast.Load) and not _within(x, i)]
-                        if not outside:
+                    def block_local(names):
+                        """assigned inside this flag block and never read outside it"""
+                        stored_in = {x.id for x in ast.walk(i) if isinstance(x, ast.Name) and isinstance(x.ctx, ast.Store)}
+                        outside = [x for x in walk_no_nested(f) if isinstance(x, ast.Name) and x.id in names and not _within(x, i)]
+                        return names <= stored_in and not outside
+                    if isinstance(sub, (ast.Assign, ast.AugAssign)):
+                        tg = sub.targets if isinstance(sub, ast.Assign) else [sub.target]
+                        if all(isinstance(t, ast.Name) for t in tg) and block_local({t.id for t in tg}):
                             continue
+                    if isinstance(sub, ast.Expr) and isinstance(sub.value, ast.Call) and isinstance(sub.value.func, ast.Attribute) \
+                            and isinstance(sub.value.func.value, ast.Name) and block_local({sub.value.func.value.id}):
+                        continue          # building a block-local list / string buffer that is then written
                     ctx.fail("P4", sub, q, "if %s: %s" % (flag, src(sub)[:80]),
                              "%s is executed only when the rendering flag %s is set, but it is not a write to that rendering's file: "
                              "what is counted / which rows are emitted would depend on --counts_format, so the matrix and linear tables "
